@@ -371,6 +371,14 @@ namespace options
         {
             if (option.second->matches(*it))
             {
+                // an option that takes a value can't be bundled with other short names, as
+                // the remaining letters would be lost
+                if (it->is_short() && it->as_short_list().size() > 1)
+                {
+                    raise<parsing_error>("the option '", option.second->name(),
+                                         "' takes a value and can't be part of '", it->data(), "'");
+                }
+
                 if (it->has_value())
                 {
                     option.second->update_value(*it);
@@ -404,6 +412,7 @@ namespace options
         // a given user_input might match more than one toggle, e.g., -ab matches a and b.
         // Therefore, we need to keep checking all toggles, even after one match.
         auto match_found = false;
+        std::size_t matched_short_names = 0;
 
         for (auto& option : get_all_toggles())
         {
@@ -411,7 +420,18 @@ namespace options
             {
                 option.second->update_value(in);
                 match_found = true;
+
+                if (in.is_short())
+                {
+                    matched_short_names += in.as_short_list().count(option.second->short_name());
+                }
             }
+        }
+
+        // every short name in a list like -abc has to belong to a toggle
+        if (match_found && in.is_short() && matched_short_names != in.as_short_list().size())
+        {
+            raise<parsing_error>("Argument '", in.data(), "' contains unknown short names.");
         }
 
         return match_found;
